@@ -188,12 +188,27 @@ def run_case(ctx, kind_, idx):
     cid = ctx.case_id(kind_, idx)
     Slot.case = cid
     x, y, meta = R.gen_series(rng, 4, 40, ties_share=0.25)
+    if rng.integers(0, 12) == 0:
+        # integer time stamps (seconds of a day, hourly or irregular): a Weaver keeps the caller's integer dtype
+        x = np.sort(rng.choice(np.arange(0, 86400, 60), size=len(x), replace=False)).astype(float)
+        meta["xcls"] = "int_seconds"
     guard = Guard()
     prog = []
     ctx.judged()
     try:
         with fp_watch(ctx):
-            wv, how = construct(rng, x, y, guard)
+            narrow_int = rng.integers(0, 15) == 0
+            if narrow_int:
+                # a series kept in narrow integer storage (seconds of a day in int32, counters in int16), worked on with
+                # integer-typed requests: nothing may be computed in the storage dtype
+                xi = np.sort(rng.choice(np.arange(0, 86400, 60), size=len(x), replace=False)).astype(np.int32)
+                yi = rng.integers(150, 320, len(x)).astype(np.int16)
+                guard.add("x(int32)", xi)
+                guard.add("y(int16)", yi)
+                wv, how = Weaver(xi, yi), "Weaver(int32,int16)"
+                x, y = xi.astype(float), yi.astype(float)
+            else:
+                wv, how = construct(rng, x, y, guard)
             prog.append(how)
             ctx.count("ctor:%s" % how.split("(")[0])
             n1 = int(rng.integers(0, 7))
@@ -201,6 +216,8 @@ def run_case(ctx, kind_, idx):
             for _ in range(n1):
                 after_recreate = prog and isinstance(prog[-1], dict) and prog[-1]["op"] == "recreate_from_average"
                 op = W.gen_op(rng, wv, allow=["integral_match"]) if after_recreate and rng.integers(0, 2) else None
+                if op is None and narrow_int and rng.integers(0, 2):
+                    op = W.gen_op(rng, wv, allow=["normalize_x", "normalize_y", "truncate_by_index", "shift_x"])
                 op = op or W.gen_op(rng, wv)
                 if op is None:
                     continue
